@@ -150,6 +150,8 @@ def _map(path):
 def _route(simfn, realfn):
     def f(path, *a, **k):
         w = CURRENT
+        if k.get("dir_fd") is not None:
+            return realfn(path, *a, **k)  # relative to a real directory descriptor: not ours
         path = _map(path)
         if w is not None and is_sim_path(path):
             return getattr(w.fs, simfn)(path, *a, **k)
@@ -201,6 +203,7 @@ _PATH_PROXY = _Proxy(
         "isfile": _route("isfile", _os.path.isfile),
         "realpath": _route("realpath", _os.path.realpath),
         "getsize": _route("getsize", _os.path.getsize),
+        "lexists": _route("exists", _os.path.lexists),
         "abspath": _abspath,
     },
 )
@@ -215,6 +218,7 @@ _OS_PROXY = _Proxy(
         "remove": _route("remove", _os.remove),
         "unlink": _route("unlink", _os.unlink),
         "listdir": _route("listdir", _os.listdir),
+        "scandir": _route("scandir", _os.scandir),
         "stat": _route("stat", _os.stat),
         "lstat": _route("stat", _os.lstat),
         "getcwd": _getcwd,
@@ -317,10 +321,11 @@ class World:
         utils_mod.os = _OS_PROXY
         # any other flow.record module that (now or after an edit) imports os, and pathlib, see the simulated tree too
         self._os_rebound = []
+        import glob as _glob  # noqa: F401  (so that it is in sys.modules and gets the simulated os as well)
         import pathlib as _pathlib
 
         for name, mod in list(sys.modules.items()):
-            if (name.startswith("flow.record") or name == "pathlib") and mod is not None and getattr(mod, "os", None) is _REAL_OS:
+            if (name.startswith("flow.record") or name in ("pathlib", "glob")) and mod is not None and getattr(mod, "os", None) is _REAL_OS:
                 try:
                     mod.os = _OS_PROXY
                     self._os_rebound.append(mod)
